@@ -223,14 +223,17 @@ pub fn abstract_children(a: &Arena, root: usize, max_nodes: usize) -> Option<Val
                     let html = &*name.ns == "http://www.w3.org/1999/xhtml";
                     m.insert("h".into(), json!(html));
                     let mut am = Map::new();
+                    let mut ao: Vec<Value> = Vec::new();
                     // first occurrence wins, as in the library's attribute loops that `break`
                     for at in attrs {
                         let an = at.name.local.to_string();
                         if ATTRS.contains(&an.as_str()) && !am.contains_key(&an) {
                             am.insert(an.clone(), attr_value(&an, &at.value));
+                            ao.push(json!(an));
                         }
                     }
                     m.insert("a".into(), Value::Object(am));
+                    m.insert("ao".into(), Value::Array(ao));
                     m.insert("c".into(), Value::Array(kids));
                     out.last_mut().unwrap().push(Value::Object(m));
                 }
